@@ -160,6 +160,8 @@ class SimProc:
         self.program = None
         self.bisturi = None
         self.defs_mods = {}
+        self.opcount = 0
+        self.mid_write = False
 
 
 def _is_owned(name):
@@ -184,7 +186,9 @@ class World:
         self.splits = 0
         self.steps = 0
         self.t0 = 1700000000.0
-        self.saved_main = None
+        self.kill_target = None       # label of the process to kill deterministically (crash-point enumeration)
+        self.kill_at = None           # (k, j): die before its k-th seam call; j > 0: call k is a write, j bytes of it reach the file first
+        self.oplog = None             # when a list: (label, kind, rel, info) of every seam call
         SEAM.install()
         SEAM.reset(root, self, out.events, out.stats, clock=self.t0)
 
@@ -228,6 +232,10 @@ class World:
 
     def write_chunk(self, proc, rel, rest, done, first, data=None):
         proc.mid_write = not first       # lets the scheduler tell a torn write from a plain crash
+        if self.kill_at is not None and proc.label == self.kill_target:
+            if first and proc.opcount == self.kill_at[0] and 0 < self.kill_at[1] < rest:
+                return self.kill_at[1]
+            return rest
         if not self.concurrent or rest <= 1 or self.splits >= 6:
             return rest
         contended = any(ent[0] == rel and ent[1] is not proc and not ent[1].dead for ent in SEAM.fds.values())
@@ -247,6 +255,18 @@ class World:
         self.steps += 1
         if proc.dead:
             raise SimCrash()
+        if self.oplog is not None:
+            self.oplog.append((proc.label, kind, rel, info))
+        if self.kill_at is not None and proc.label == self.kill_target:
+            n = proc.opcount
+            proc.opcount += 1
+            k, j = self.kill_at
+            if (n == k and j == 0) or (n == k + 1 and j > 0):
+                proc.dead = True
+                self.out.stats["fault:torn-write" if j > 0 else "fault:crash-before-op"] += 1
+                SEAM.log(proc, "KILLED before %s %s" % (kind, SEAM.norm(rel)))
+                SEAM.kill_fds_of(proc)
+                raise SimCrash()
         if not self.concurrent:
             return
         proc.pending = (kind, rel)
@@ -317,7 +337,10 @@ class World:
         self.swap_in(proc)
         try:
             program(proc)
+        except SimCrash:
+            proc.dead = True
         finally:
+            SEAM.kill_fds_of(proc)
             self.swap_out(proc)
             self.concurrent = was
 
@@ -752,6 +775,8 @@ class CacheConcEngine(CacheEngineBase):
                        "later-process-hit-cache", "later-process-rewrote-cache", "prior-state-nonempty"]
 
     def execute(self, scenario, ch):
+        if scenario.get("mode") == "enum":
+            return self._execute_enum(scenario, ch)
         out = Outcome()
         st = out.stats
         ev = out.events.append
@@ -838,6 +863,171 @@ class CacheConcEngine(CacheEngineBase):
         SEAM.root = None
         return out
 
+    # ---- exhaustive crash-point enumeration of the sequential cache update -------------------
+    def chunk(self, tier):
+        return self.chunks[tier]
+
+    def enum_pairs(self, tier):
+        """(prior variant or None, victim variant, byte level) scenarios"""
+        pri = [None] + VNAMES
+        pairs = []
+        same_size = ["v1", "v2", "v3", "v4", "v5"]
+        for a in pri:
+            for b in VNAMES:
+                if b == "v10":
+                    continue            # never touches the cache
+                level = "stride"
+                if tier == "thorough" and (a in (None, "v2") and b in ("v1", "v11", "v13") or (a == "v1" and b == "v2")):
+                    level = "all"
+                if tier == "quick" and not ((a in (None, "v2", "v8") and b in ("v1", "v11")) or (a == "v1" and b == "v2")):
+                    continue
+                pairs.append((a, b, level))
+        return pairs
+
+    def extra_phase(self, tier, seed, pool, tree, scratch):
+        pairs = self.enum_pairs(tier)
+        tot = {"crash_points": 0, "distinct_crash_states": 0, "later_definitions_checked": 0}
+        viols = []
+        samples = []
+        for r in pool.map(_enum_job, [(i, a, b, level) for i, (a, b, level) in enumerate(pairs)]):
+            if "harness_error" in r:
+                raise RuntimeError(r["harness_error"])
+            for k in tot:
+                tot[k] += r[k]
+            viols.extend(r["violations"])
+            if len(samples) < 2 and r.get("sample"):
+                samples.append(r["sample"])
+        return {"crash_point_enumeration": dict(tot, scenarios=len(pairs), exhaustive_over=(
+                    "for each enumerated (prior cache state, declaration) scenario: death before every file-system call of the "
+                    "cache update and after every enumerated byte prefix of every write (all prefixes where byte level is 'all', "
+                    "first/last/middle/every 97th otherwise), each followed by a fresh fault-free process per later declaration "
+                    "(the same, the prior one, a same-size sibling)"), samples=samples),
+                "exhaustive_crash_points": True, "violations": viols}
+
+    def enum_pair(self, idx, a, b, level):
+        """all crash points of: [prior process defines a] ; victim defines b and dies at point p ; later process defines c"""
+        res = {"crash_points": 0, "distinct_crash_states": 0, "later_definitions_checked": 0, "violations": [], "sample": None}
+        base = {"mode": "enum", "prior": a, "prior_bytecode": bool(idx % 2), "victim": b}
+        # learn the victim's file-system calls from an undisturbed run
+        out = Outcome()
+        world, _ = self._enum_world(out, base, None)
+        ops = [o for o in world.oplog if o[0] == "victim"]
+        points = []
+        for k, (_, kind, rel, info) in enumerate(ops):
+            points.append((k, 0))
+            if kind == "write":
+                L = int(info.split("B")[0])
+                js = range(1, L) if level == "all" else sorted({1, L - 1, L // 2} | set(range(97, L, 97)))
+                points.extend((k, j) for j in js if 0 < j < L)
+        later = [b] + ([a] if a and a != b else []) + ([{"v1": "v2", "v2": "v1", "v3": "v2", "v4": "v1", "v5": "v1"}.get(b)] if b in ("v1", "v2", "v3", "v4", "v5") else [])
+        seen_states = set()
+        for (k, j) in points:
+            res["crash_points"] += 1
+            out = Outcome()
+            sc = dict(base, kill_at=[k, j])
+            world, _ = self._enum_world(out, sc, None)
+            state = (_pkts_listing(world.root), self._mtimes(world.root))
+            if state in seen_states:
+                continue                 # same directory state as an earlier crash point: same continuations
+            seen_states.add(state)
+            res["distinct_crash_states"] += 1
+            snap = self._snapshot(world.root)
+            clock = SEAM.clock
+            for c in later:
+                sc = dict(base, kill_at=[k, j], later=c)
+                out2 = Outcome()
+                v = self._enum_later(out2, sc, snap, clock)
+                res["later_definitions_checked"] += 1
+                if v is not None:
+                    res["violations"].append({"run": idx, "scenario": sc, "draws": {}, "violation": {"oracle": v[0], "actor": v[1], "detail": v[2]},
+                                              "events": out2.events[-100:], "event_digest": out2.event_digest()})
+                    if len(res["violations"]) >= 3:
+                        return res
+            if res["sample"] is None and j > 0:
+                res["sample"] = {"scenario": sc, "victim_calls": len(ops)}
+        return res
+
+    def _mtimes(self, root):
+        out = []
+        for d, _, files in sorted(os.walk(os.path.join(root, "__pkts__"))):
+            for fn in sorted(files):
+                try:
+                    out.append(int(REAL["stat"](os.path.join(d, fn)).st_mtime))
+                except OSError:
+                    pass
+        return tuple(out)
+
+    def _snapshot(self, root):
+        files = []
+        for d, dirs, fns in os.walk(os.path.join(root, "__pkts__")):
+            for dn in dirs:
+                files.append((os.path.relpath(os.path.join(d, dn), root), None, 0))
+            for fn in fns:
+                p = os.path.join(d, fn)
+                with REAL_IO_OPEN(p, "rb") as f:
+                    files.append((os.path.relpath(p, root), f.read(), REAL["stat"](p).st_mtime))
+        return files
+
+    def _enum_world(self, out, sc, snap):
+        """prior process (if any) then the victim, killed at sc['kill_at'] if given; returns the world"""
+        root = project.fresh_dir(os.path.join(self.wdir, "p16e"))
+        from .chooser import Chooser
+        world = World(self, Chooser(replay=[]), out, root, concurrent=False)
+        world.clock_faults = False
+        world.oplog = []
+        if sc["prior"]:
+            _write_defs(world, "defs", [("Foo", sc["prior"])])
+            pr = world.spawn("prior", bytecode=sc["prior_bytecode"])
+            world.run_alone(pr, lambda p: world.define_run(p, "defs"))
+            SEAM.clock += 0.5
+        _write_defs(world, "defs", [("Foo", sc["victim"])])
+        vic = world.spawn("victim", bytecode=True)
+        if sc.get("kill_at") is not None:
+            world.kill_target, world.kill_at = "victim", tuple(sc["kill_at"])
+        world.run_alone(vic, lambda p: world.define_run(p, "defs"))
+        world.kill_at = None
+        return world, vic
+
+    def _enum_later(self, out, sc, snap, clock):
+        """a fresh fault-free process defines sc['later'] on the directory state left by the crash"""
+        if snap is None:
+            world, _ = self._enum_world(out, sc, None)
+            root = world.root
+            world.out = out
+        else:
+            root = project.fresh_dir(os.path.join(self.wdir, "p16l"))
+            from .chooser import Chooser
+            world = World(self, Chooser(replay=[]), out, root, concurrent=False)
+            world.clock_faults = False
+            for rel, data, mtime in sorted(snap, key=lambda x: (x[1] is not None, x[0])):
+                p = os.path.join(root, rel)
+                if data is None:
+                    os.makedirs(p, exist_ok=True)
+                else:
+                    os.makedirs(os.path.dirname(p), exist_ok=True)
+                    with REAL_IO_OPEN(p, "wb") as f:
+                        f.write(data)
+                    REAL["utime"](p, (mtime, mtime))
+            SEAM.clock = clock
+        SEAM.clock += 0.3
+        _write_defs(world, "defs", [("Foo", sc["later"])])
+        lp = world.spawn("later", bytecode=True)
+        world.run_alone(lp, lambda p: world.define_run(p, "defs"))
+        v = self.check_proc(world, lp, "C16")
+        SEAM.current = None
+        SEAM.root = None
+        return v
+
+    def _execute_enum(self, scenario, ch):
+        out = Outcome()
+        v = self._enum_later(out, scenario, None, None)
+        if v is not None:
+            out.violation = {"oracle": v[0], "actor": v[1], "detail": v[2]}
+            out.events.append("VIOLATION %s: %s" % (v[0], v[2]))
+        out.case_sig = digest(sorted(scenario.items(), key=str))
+        out.nontrivial = True
+        return out
+
     def _phase_probes(self, out, mark, st, procs):
         """reach probes computed from the event log of the concurrent phase (implementation agnostic:
         they look at who touched which final name when, not at how the library organises its writes)"""
@@ -897,3 +1087,17 @@ class CacheConcEngine(CacheEngineBase):
                 if writers:
                     st["probe:reader-saw-file-being-written"] += 1
         self._owners = owners
+
+
+def _enum_job(args):
+    from .runner import _W
+    idx, a, b, level = args
+    eng = _W["eng"]
+    import faulthandler
+    faulthandler.dump_traceback_later(1800, exit=True)
+    try:
+        return eng.enum_pair(idx, a, b, level)
+    except Exception:
+        return {"harness_error": "crash-point enumeration (%s,%s): %s" % (a, b, traceback.format_exc())}
+    finally:
+        faulthandler.cancel_dump_traceback_later()
